@@ -253,7 +253,7 @@ def obligations(tier):
             out += specs("C08.model", [{"tomo": "qpt", "sysname": "Q2", "m": 0, "flag": flag, "tester": "small", "variant": "all"}], ob_model, 10)
     out += specs("C08.circuit.qmpt", tiers(tier, [], [{"tester": "default"}]), ob_circuit_qmpt, 12)
     for tomo in ("qst", "povmt", "qpt"):
-        for m in ([0] if tomo in ("qst", "qpt") else [2]):
+        for m in ([0] if tomo in ("qst", "qpt") else [2, 3]):      # m = 3: the implied last POVM element is rebuilt from TWO explicit ones
             out += specs("C08.circuit", [{"tomo": tomo, "sysname": "Q1", "m": m, "tester": "default", "variant": "all"}], ob_circuit, 10)
             out += specs("C08.circuit", [{"tomo": tomo, "sysname": "Q1", "m": m, "tester": "mixed", "variant": "all"}], ob_circuit, 10)
     for tomo in TOMO_TYPE:
